@@ -177,6 +177,7 @@ def oracle(case, obs):
         return {"clause": "isolation", "detail": "a fresh manager created after the run differs from one created before"}
     nm = case["managers"]
     names = [[n for n, _ in obs["init"]] for _ in range(nm)]
+    ids = [{n: BUILTIN_ID.get(cls, 99) for n, cls in obs["init"]} for _ in range(nm)]
     supported_now = [dict() for _ in range(nm)]
     for (i, op), a in zip(case["ops"], obs["answers"]):
         if op[0] == "add":
@@ -188,14 +189,16 @@ def oracle(case, obs):
                 if a != ["ok"]:
                     return {"clause": "registration-accepted", "detail": [i, op, a]}
                 names[i] = [low] + names[i] if op[2] else names[i] + [low]
+                ids[i][low] = STUB_ID[op[1].upper()]
             supported_now[i] = {}
         elif op[0] == "get":
             if a[0] == "plug" and "/" not in op[1] and a[1] in (0, 12):
                 return {"clause": "undiscoverable-returned-for-bare-name", "detail": [i, op, a]}
+            if a[0] == "plug" and a[1] not in ids[i].values():
+                return {"clause": "isolation: lookup returned a plug-in that is not registered in this manager", "detail": [i, op, a]}
             if a[0] == "plug" and "/" in op[1]:
                 head = op[1].split("/", 1)[0].lower()
-                want = {"a": 10, "b": 11, "n": 12}.get(head)
-                if want is not None and a[1] != want:
+                if ids[i].get(head) != a[1]:
                     return {"clause": "qualified-consults-other-plugin", "detail": [i, op, a]}
             prev = supported_now[i].get(op[1])
             if prev is not None and prev != (a[0] == "plug"):
@@ -204,6 +207,8 @@ def oracle(case, obs):
         else:
             if a[0] != "bool":
                 return {"clause": "is_supported-not-bool", "detail": [i, op, a]}
+            if a[1] and "/" in op[1] and op[1].split("/", 1)[0].lower() not in ids[i]:
+                return {"clause": "isolation: is_supported true for a plug-in name not registered in this manager", "detail": [i, op, a]}
             prev = supported_now[i].get(op[1])
             if prev is not None and prev != a[1]:
                 return {"clause": "is_supported-iff-get", "detail": [i, op, a]}
